@@ -117,14 +117,16 @@ def case_mtl(sp, tier, family):
     if explicit:
         from harness.C01 import as_container
         kw = dict(tasks_params=[as_container([prog[n] for n in ps], kind) for ps in tasks_params], shared_params=as_container([] if empty_shared else [prog["p0"], prog["p1"]], kind))
-    mtl_backward([prog[n] for n in losses], [prog[f] for f in feats] if len(feats) > 1 or choice(2, "features_as_list") else prog[feats[0]], A,
-                 parallel_chunk_size=k, **kw)
-    obs = []
     def cex(model):
         return dict(kind="autojac_mtl", spec=spec_json(spec), losses=losses, features=feats, tasks_params=tasks_params if explicit else None,
                     shared_params=([] if empty_shared else ["p0", "p1"]) if explicit else None, expected_tasks_params=tasks_params, expected_shared=[] if empty_shared else ["p0", "p1"],
                     jac=jac_values(model, prog), v=cex_values(model, v=[o._flat() for o in A.outs])["v"], chunk=k, container=["list", "tuple", "generator", "iterator"][kind], dtype="float64" if f64 else "float32",
                     old={kk: (cex_values(model, g=g)["g"] if g is not None else None) for kk, g in old.items()})
+    feats_arg = [prog[f] for f in feats] if len(feats) > 1 or choice(2, "features_as_list") else prog[feats[0]]
+    _, failed = valid_call(lambda: mtl_backward([prog[n] for n in losses], feats_arg, A, parallel_chunk_size=k, **kw), cex, "mtl_backward_on_valid_arguments_succeeds")
+    if failed:
+        return failed
+    obs = []
     # --- task specific parameters
     all_task = sorted({n for ps in tasks_params for n in ps})
     for n in all_task:
